@@ -66,7 +66,7 @@ pub fn run(args: &Args, rep: &mut Report) {
         let mut scfg = SessCfg::all(unicode_build());
         scfg.props = ["C01", "C13"].into_iter().collect();
         scfg.tolerate_baseline_diags = true;
-        scfg.opt_order = rng.below(6) as u8;
+        scfg.opt_order = rng.below(12) as u8;
         scfg.lib_walk = rng.chance(1, 2);
         // a device that refuses writes: nothing may depend on a write succeeding (skipped where the documented
         // exception - storing a recomputed FAT32 free count - can apply)
